@@ -234,7 +234,15 @@ fn concurrent_save(h: &mut H, seed: u64, a: &[B]) {
         let mut quanta = 0u64;
         for _ in 0..steps {
             if h.dead.is_some() { break; }
-            match r.weighted(&[10, 10, 2, 1]) {
+            match r.weighted(&[10, 10, 2, 1, 1]) {
+                4 => {
+                    // another save is asked for while this one is under way: it may be carried out or refused, but the
+                    // file on disk must stay a complete snapshot whichever of the two finishes first
+                    let c = *r.pick(&["SAVE", "SAVE", "BGSAVE"]);
+                    let rep = run(h, &[c.as_bytes().to_vec()]);
+                    h.count(&format!("second_save_{}_{}", c, match &rep { Some(R::Err(_)) => "refused", Some(_) => "accepted", None => "no_reply" }), 1);
+                    record(h, &mut hist);
+                }
                 0 => {
                     // let the saver advance by a few lock acquisitions / keys
                     if h.sim.is_runnable(saver) { let b = r.range(1, 4); h.sim.step(saver, 0, M_SHARD | M_RDB_KEY | M_RDB_SHARED, b); quanta += 1; }
